@@ -62,15 +62,17 @@ type c10Obs struct {
 }
 
 type c10Reply struct {
-	Error      string   `json:"error,omitempty"`
-	SetupOK    bool     `json:"setup_ok"`
-	Obs        []c10Obs `json:"obs"`
-	Accepts    int      `json:"accepts"`    // server role: sessions the application accepted during the case
-	VictimSid  uint32   `json:"victim_sid"` // real id behind the "victim" selector
-	Own        []uint32 `json:"own"`        // real ids behind own1 / own2 (client role)
-	ElapsedMs  int64    `json:"elapsed_ms"`
-	SameUnder  bool     `json:"same_underlay"` // client role: own1 and own2 share an underlay
-	VictimLeft string   `json:"victim_final"`
+	Error      string        `json:"error,omitempty"`
+	SetupOK    bool          `json:"setup_ok"`
+	Obs        []c10Obs      `json:"obs"`
+	Accepts    int           `json:"accepts"`    // server role: sessions the application accepted during the case
+	VictimSid  uint32        `json:"victim_sid"` // real id behind the "victim" selector
+	Own        []uint32      `json:"own"`        // real ids behind own1 / own2 (client role)
+	ElapsedMs  int64         `json:"elapsed_ms"`
+	SameUnder  bool          `json:"same_underlay"` // client role: own1 and own2 share an underlay
+	VictimLeft string        `json:"victim_final"`
+	Burst      *c10BurstObs  `json:"burst,omitempty"`
+	Window     *c10WindowObs `json:"window,omitempty"`
 }
 
 type c10Cmd struct {
@@ -79,6 +81,9 @@ type c10Cmd struct {
 	UDP  bool     `json:"udp"`
 	Seed int64    `json:"seed"`
 	Case *c10Case `json:"case"`
+	// r4 stages (c10_burst.go, c10_window.go)
+	Burst  *c10BurstSpec  `json:"burst,omitempty"`
+	Window *c10WindowSpec `json:"window,omitempty"`
 }
 
 var c10Users = []sim.User{{Name: "alice", Password: "alice-secret"}, {Name: "bob", Password: "bob-secret"}, {Name: "carol", Password: "carol-secret"}}
@@ -114,6 +119,7 @@ type c10Child struct {
 	mu    sync.Mutex
 	cond  *sync.Cond
 	apps  map[uint32]*c10AppSess // server role: accepted sessions by id
+	mute  map[uint32]bool        // server role: sessions the application accepts and then never reads (window stage)
 	order []uint32
 
 	victim    net.Conn // server role: alice's real session
@@ -191,8 +197,12 @@ func (c *c10Child) startServer() error {
 			c.mu.Lock()
 			c.apps[id] = a
 			c.order = append(c.order, id)
+			muted := c.mute[id]
 			c.cond.Broadcast()
 			c.mu.Unlock()
+			if muted {
+				continue // an application that does not read: the receive queue of this session fills up
+			}
 			go c.pump(a, true)
 		}
 	}()
@@ -1171,7 +1181,7 @@ func c10ChildMain() {
 			}
 			switch cmd.Op {
 			case "start":
-				c = &c10Child{role: cmd.Role, udp: cmd.UDP, seed: cmd.Seed, apps: map[uint32]*c10AppSess{}}
+				c = &c10Child{role: cmd.Role, udp: cmd.UDP, seed: cmd.Seed, apps: map[uint32]*c10AppSess{}, mute: map[uint32]bool{}}
 				c.cond = sync.NewCond(&c.mu)
 				var e error
 				if cmd.Role == "server" {
@@ -1196,6 +1206,18 @@ func c10ChildMain() {
 				}
 			case "assoc-types":
 				reply(c10AssocTypes())
+			case "burst":
+				if c == nil || cmd.Burst == nil {
+					reply(c10Reply{Error: "not started"})
+					continue
+				}
+				reply(c.runBurst(cmd.Burst))
+			case "window":
+				if c == nil || cmd.Window == nil {
+					reply(c10Reply{Error: "not started"})
+					continue
+				}
+				reply(c.runWindow(cmd.Window))
 			case "quit":
 				return
 			}
